@@ -405,7 +405,10 @@ func (f *frame) resolveName(name string) (SV, bool) {
 						if o.v == ssa.Value(ph) || o.b == b {
 							continue
 						}
-						if b.Dominates(o.b) && o.b != blk && !blk.Dominates(o.b) {
+						// another binding lies between when the call can be reached from it
+						// without passing through b again (a loop's update in the latch, say,
+						// reaches the call only through the head and b: it is not between)
+						if o.b == blk || reachesAvoiding(o.b, blk, b) {
 							between = true
 						}
 					}
@@ -1064,6 +1067,30 @@ func (f *frame) resolveNth(name string, k int) (SV, bool) {
 	}
 	sv, ok := f.vals[oi.vals[0]]
 	return sv, ok
+}
+
+// reachesAvoiding: there is a path from block from to block to that does not enter block avoid.
+func reachesAvoiding(from, to, avoid *ssa.BasicBlock) bool {
+	if from == avoid {
+		return false
+	}
+	seen := map[*ssa.BasicBlock]bool{from: true}
+	work := []*ssa.BasicBlock{from}
+	for len(work) > 0 {
+		b := work[len(work)-1]
+		work = work[:len(work)-1]
+		for _, s := range b.Succs {
+			if s == avoid || seen[s] {
+				continue
+			}
+			if s == to {
+				return true
+			}
+			seen[s] = true
+			work = append(work, s)
+		}
+	}
+	return false
 }
 
 func (E *Engine) typeInfoFor(fn *ssa.Function) *types.Info {
